@@ -72,8 +72,6 @@ let err e = "ERR:" ^ errname e
 
 exception Model_panic of int
 
-(* Unwrap a model result: Ok -> f, Err -> "ERR:..", Panic -> raise (the case stops, like the
-   implementation's catch_unwind). *)
 let on_res (r : 'a res) (f : 'a -> string) : string =
   match r with Ok a -> f a | Err e -> err e | Panic s -> raise (Model_panic (int_of_n s))
 
@@ -91,26 +89,80 @@ let view (pp : ppacket) : string =
 
 let split_on c s = String.split_on_char c s
 
+let sec_of = function
+  | "q" -> SQuestion | "an" -> SAnswer | "ns" -> SNameServers | "ar" -> SAdditional
+  | _ -> failwith "bad section in case file"
+
+let secname = function
+  | SQuestion -> "q" | SAnswer -> "an" | SNameServers -> "ns" | SAdditional -> "ar" | SEdns -> "ed"
+
+let parse_acts (s : string) : action list =
+  if s = "" || s = "_" then []
+  else
+    List.map
+      (fun a ->
+        let t = String.sub a 1 (String.length a - 1) in
+        match a.[0] with
+        | 'n' -> AName | 'r' -> ARawName | 't' -> AType | 'c' -> AClass | 'l' -> ATtl
+        | 'd' -> ARdlen | 'D' -> ARd | 'i' -> AIp | 's' -> ASection | 'o' -> AOffsets
+        | 'T' -> ASetTtl (n_of_int (int_of_string t))
+        | 'A' -> ASetIp (unhex t)
+        | 'M' -> ASetRawName (unhex t)
+        | 'X' -> ADelete | 'V' -> AUncompress | 'B' -> ABreak
+        | _ -> failwith "bad action in case file")
+      (split_on '.' s)
+
+let chr (tag : n) = String.make 1 (Char.chr (int_of_n tag))
+
+let show_obs = function
+  | ObsSep -> "|"
+  | ObsBytes (t, b) -> Printf.sprintf "%s=%s" (chr t) (hex b)
+  | ObsBytesLen (t, b, l) -> Printf.sprintf "%s=%s/%d" (chr t) (hex b) (int_of_nat l)
+  | ObsNum (t, v) -> Printf.sprintf "%s=%d" (chr t) (int_of_n v)
+  | ObsIp (t, b) -> Printf.sprintf "%s=ip:%s" (chr t) (hex b)
+  | ObsErr (t, e) -> Printf.sprintf "%s=%s" (chr t) (err e)
+  | ObsOk t -> Printf.sprintf "%s=OK" (chr t)
+  | ObsSection s -> Printf.sprintf "s=%s" (secname s)
+  | ObsOffsets (o, ne) ->
+    Printf.sprintf "o=%s/%s" (on_nat o) (match o with Some _ -> string_of_int (int_of_nat ne) | None -> "-")
+  | ObsEdns (c, d) -> Printf.sprintf "|e=%d/%s" (int_of_n c) (hex d)
+  | ObsLimit -> "LIMIT"
+
+let qtriple = function
+  | None -> "-"
+  | Some ((nm, t), c) -> Printf.sprintf "%s/%d/%d" (hex nm) (int_of_n t) (int_of_n c)
+
 (* ---- one op ---------------------------------------------------------------------------- *)
 
 type ctx = { mutable pp : ppacket option }
 
+(* run an object operation of the Gallina script language and print its output *)
+let do_op (ctx : ctx) (pp : ppacket) (o : op) (label : string) : string =
+  let pp', r = exec_op o pp in
+  ctx.pp <- Some pp';
+  match r with
+  | Panic s -> raise (Model_panic (int_of_n s))
+  | Err e -> err e
+  | Ok OutOk -> "OK"
+  | Ok (OutErr e) -> err e
+  | Ok (OutQ r) -> Printf.sprintf "%s=%s" label (qtriple r)
+  | Ok (OutQT r) ->
+    (match r with None -> label ^ "=-" | Some (t, c) -> Printf.sprintf "%s=%d/%d" label (int_of_n t) (int_of_n c))
+  | Ok (OutObs l) -> Printf.sprintf "W[%s]" (String.concat " " (List.map show_obs l))
+
 let get (r : 'a res) : 'a =
   match r with Ok a -> a | Err _ -> failwith "unexpected Err in getter" | Panic s -> raise (Model_panic (int_of_n s))
-
-let set ctx (r : ppacket res) : string =
-  match r with
-  | Ok pp -> ctx.pp <- Some pp; "OK"
-  | Err e -> err e
-  | Panic s -> raise (Model_panic (int_of_n s))
-
-(* big arguments (u32 flags, u64) arrive as decimal strings; OCaml ints are 63-bit *)
-let n_of_string (s : string) : n = n_of_int (int_of_string s)
 
 let run_obj_op (ctx : ctx) (pp : ppacket) (f : string array) : string =
   match f.(0) with
   | "b" -> "b=" ^ hex pp.pp_packet
   | "v" -> Printf.sprintf "v[%s]" (view pp)
+  | "fp" ->
+    (match parse pp.pp_packet with
+     | Ok fp -> Printf.sprintf "fp[%s]" (view fp)
+     | Err e -> Printf.sprintf "fp[%s]" (err e)
+     | Panic s -> raise (Model_panic (int_of_n s)))
+  | "ca" -> "ca=" ^ qtriple pp.pp_cached
   | "g" ->
     Printf.sprintf "g[tid=%d fl=%d rc=%d op=%d qr=%d sec=%d mp=%d]"
       (int_of_n (get (pp_tid pp))) (int_of_n (get (pp_flags pp))) (int_of_n (get (pp_rcode pp)))
@@ -118,11 +170,31 @@ let run_obj_op (ctx : ctx) (pp : ppacket) (f : string array) : string =
       (if get (pp_is_response pp) then 1 else 0)
       (if get (pp_dnssec pp) then 1 else 0)
       (int_of_n pp.pp_max_payload)
-  | "st" -> set ctx (pp_set_tid pp (n_of_int (int_of_string f.(1) land 0xffff)))
-  | "sf" -> set ctx (pp_set_flags pp (n_of_int (int_of_string f.(1) land 0xffffffff)))
-  | "sr" -> set ctx (pp_set_rcode pp (n_of_int (int_of_string f.(1) land 0xff)))
-  | "so" -> set ctx (pp_set_opcode pp (n_of_int (int_of_string f.(1) land 0xff)))
-  | "sp" -> set ctx (pp_set_response pp (f.(1) = "1"))
+  | "q0" -> do_op ctx pp OQuestionRaw0 "q0"
+  | "q1" -> do_op ctx pp OQuestionRaw "q1"
+  | "q2" -> do_op ctx pp OQuestion "q2"
+  | "qt" -> do_op ctx pp OQtypeQclass "qt"
+  | "st" -> do_op ctx pp (OSetTid (n_of_int (int_of_string f.(1) land 0xffff))) ""
+  | "sf" -> do_op ctx pp (OSetFlags (n_of_int (int_of_string f.(1) land 0xffffffff))) ""
+  | "sr" -> do_op ctx pp (OSetRcode (n_of_int (int_of_string f.(1) land 0xff))) ""
+  | "so" -> do_op ctx pp (OSetOpcode (n_of_int (int_of_string f.(1) land 0xff))) ""
+  | "sp" -> do_op ctx pp (OSetResponse (f.(1) = "1")) ""
+  | "I" -> do_op ctx pp (OInsertText (sec_of f.(1), unhex f.(2))) ""
+  | "IQ" -> do_op ctx pp (OInsertQuestion (unhex f.(1), n_of_int (int_of_string f.(2)))) ""
+  | "rn" -> do_op ctx pp (ORename (unhex f.(1), unhex f.(2), f.(3) = "1")) ""
+  | "rc" -> do_op ctx pp ORecompute ""
+  | "W" ->
+    if f.(1) = "ed" then do_op ctx pp OWalkEdns ""
+    else begin
+      let plan = if Array.length f > 3 then f.(3) else "*" in
+      let per = ref [] and def = ref [] in
+      List.iter
+        (fun part ->
+          if String.length part > 0 && part.[0] = '*' then def := parse_acts (String.sub part 1 (String.length part - 1))
+          else per := parse_acts part :: !per)
+        (split_on '/' plan);
+      do_op ctx pp (OWalk (sec_of f.(1), f.(2) = "1", List.rev !per, !def)) ""
+    end
   | _ -> "UNIMPL"
 
 let run_op (ctx : ctx) (op : string) : string =
@@ -162,8 +234,27 @@ let run_op (ctx : ctx) (op : string) : string =
        Printf.sprintf "OK:%s same=%d steps=%d" (view pp) (if pp.pp_packet = p then 1 else 0) steps
      | Err e -> Printf.sprintf "%s steps=%d" (err e) steps
      | Panic s -> raise (Model_panic (int_of_n s)))
+  | "U" ->
+    let p = unhex f.(1) and off = nat_of_int (int_of_string f.(2)) in
+    on_res (uncompress_with_previous_offset p off) (fun (v, o) -> Printf.sprintf "OK:%s@%d" (hex v) (int_of_nat o))
+  | "C" -> on_res (compress (unhex f.(1))) (fun v -> "OK:" ^ hex v)
+  | "Y" -> on_res (rr_from_string (unhex f.(1))) (fun v -> "OK:" ^ hex v)
+  | "Z" ->
+    let z = if f.(2) = "-" then None else Some (unhex f.(2)) in
+    on_res (raw_name_from_str (unhex f.(1)) z) (fun v -> "OK:" ^ hex v)
+  | "R" ->
+    (match parse (unhex f.(1)) with
+     | Err e -> "PARSE-" ^ err e
+     | Panic s -> raise (Model_panic (int_of_n s))
+     | Ok pp -> on_res (renamer_rename pp (unhex f.(2)) (unhex f.(3)) (f.(4) = "1")) (fun v -> "OK:" ^ hex v))
+  | "RR" ->
+    on_res (replace_raw (unhex f.(1)) (unhex f.(2)) (unhex f.(3)) (f.(4) = "1"))
+      (function None -> "OK:none" | Some v -> "OK:" ^ hex v)
   | "E" ->
     on_res (pp_empty (n_of_int (int_of_string f.(1)))) (fun pp -> ctx.pp <- Some pp; "OK")
+  | "Q" ->
+    on_res (gen_query (n_of_int (int_of_string f.(3))) (unhex f.(1)) (n_of_int (int_of_string f.(2))) (n_of_int 1))
+      (fun pp -> ctx.pp <- Some pp; "OK")
   | _ ->
     (match ctx.pp with
      | None -> "NOOBJ"
